@@ -1,0 +1,26 @@
+"""Verification trace hook.
+
+A no-op unless the environment variable ``QUANTEM_VERIF=1`` is set *and* a sink has
+been installed with :func:`set_sink`; used by external conformance checks to record
+events at well-defined points (e.g. one event per yielded mini-batch).
+"""
+
+import os
+
+ENABLED = os.environ.get("QUANTEM_VERIF") == "1"
+_sink = None
+
+
+def set_sink(sink) -> None:
+    """Install (or remove, with ``None``) the list that receives the events."""
+    global _sink
+    _sink = sink
+
+
+def active() -> bool:
+    return ENABLED and _sink is not None
+
+
+def emit(op: str, **fields) -> None:
+    if ENABLED and _sink is not None:
+        _sink.append({"op": op, **fields})
